@@ -1060,6 +1060,16 @@ func (p Patch) move(doc *container, op Operation, options *ApplyOptions) error {
 		return fmt.Errorf("error in move for path: '%s': %w", key, err)
 	}
 
+	if key == "" && val != nil {
+		// get("") hands out the container's own bookkeeping node, which is not part
+		// of the document tree: move a copy of it, never the node itself, so that
+		// no node is ever reachable twice (a shared node can be made its own child).
+		val, _, err = deepCopy(val, options)
+		if err != nil {
+			return fmt.Errorf("error in move for path: '%s': %w", key, err)
+		}
+	}
+
 	err = con.remove(key, options)
 	if err != nil {
 		return fmt.Errorf("error in move for path: '%s': %w", key, err)
